@@ -70,7 +70,8 @@ CLAIMED['C19'] = {
             'point showing that a caller-supplied vertex passes a finiteness validation before it can reach storage '
             '(constructors and k=1 flips are reasoned table entries); helpers that assert hull freshness are called only '
             'behind the typed staleness check; checked integer arithmetic (overflow / division asserts on non-usize integers, '
-            'usize subtraction) per function matches a classified table. Decides "no unbounded loop / recursion, no new '
+            'usize subtraction) per function matches a classified table; slice indices that are caller-handle values are '
+            'range-checked first. Decides "no unbounded loop / recursion, no new '
             'panic site, non-finite input gated"; not complexity, stack depth or arithmetic asserts.',
     'note': 'Trusted: rustc MIR; finiteness of std/slotmap/smallvec iterators; the LOOP / PANIC / FINITE tables in '
             'engine/rules/c19.py (each entry with a reason). Idiom classifiers: an unrecognised but correct new loop or '
